@@ -315,10 +315,12 @@ class DemoStorage(ConflictResolvingStorage):
                 self._next_oid = random.randint(1, 1 << 62)
 
     def pack(self, t, referencesf, gc=None):
-        if gc is None:
-            if self._temporary_changes:
+        # The changes can be garbage collected on their own only if every
+        # object lives in them, i.e. if there is nothing in the base.
+        if (self._temporary_changes and
+                self.base.lastTransaction() == ZODB.utils.z64):
+            if gc is None:
                 return self.changes.pack(t, referencesf)
-        elif self._temporary_changes:
             return self.changes.pack(t, referencesf, gc=gc)
         elif gc:
             raise TypeError(
